@@ -307,7 +307,8 @@ GLOBAL_HELPERS = ['TotalOrderSort', 'IsNamedTupleClassImpl', 'IsNamedTupleClass'
                   'DictKeysDifference', 'SortedDictKeys', 'DictKeys', 'ListGetItemAs', 'DictGetItemAs',
                   'TupleGetItemAs', 'TupleSetItem', 'ListSetItem', 'DictSetItem', 'NamedTupleGetFields',
                   'TupleGetSize', 'ListGetSize', 'DictGetSize', 'TupleGetItem', 'ListGetItem', 'DictGetItem',
-                  'AssertExact', 'HashCombine', 'IsStructSequenceInstance', 'IsNamedTupleInstance', 'PyRepr', 'PyStr']
+                  'AssertExact', 'AssertExactList', 'AssertExactTuple', 'AssertExactDict', 'AssertExactOrderedDict',
+                  'AssertExactDefaultDict', 'AssertExactStandardDict', 'AssertExactDeque', 'HashCombine', 'IsStructSequenceInstance', 'IsNamedTupleInstance', 'PyRepr', 'PyStr']
 
 
 def load_program(repo: Path = B.REPO, verbose=False) -> Program:
